@@ -292,6 +292,14 @@ impl World {
         });
     }
 
+    /// how many parameters the next on_execute is to pull (None = all)
+    pub fn peek_pull(&self) -> Option<u16> {
+        match self.acts.get(self.act_next) {
+            Some(Act::Program(p)) => p.pull_params,
+            _ => None,
+        }
+    }
+
     /// next action for a shim callback
     pub fn take_act(&mut self) -> (usize, Act) {
         let i = self.act_next;
